@@ -727,6 +727,9 @@ def check_C09(tier):
     asc = [s for s in fuzz if s and all(32 < ord(c) < 127 and c not in '"' for c in s)]
     judge_roundtrips(rep, "fuzz", asc[: (600 if quick else 5000)], "default", True, ("C09",))
     big = [("long chain", "C" * (20000 if quick else 100000)), ("deep branches", "C(" * 400 + "C" + ")" * 400),
+           # branches that are followed by further atoms really nest (a trailing branch is a chain continuation)
+           ("nested branches 600", "C" + "(C" * 600 + ")F" * 600), ("nested branches 1500", "C" + "(C" * 1500 + ")F" * 1500),
+           ("nested branches 5000", "C" + "(C" * 5000 + ")F" * 5000),
            ("deeper branches", "C(" * 3000 + "C" + ")" * 3000), ("many rings", "C1CC1" * 3000),
            ("wide ring", gs.macrocycle(5000)), ("isotope digits", "[" + "1" * 5000 + "C]"),
            ("charge signs", "[C" + "+" * 5000 + "]"), ("dots", "C." * 5000 + "C"), ("brackets", "[" * 3000),
